@@ -220,6 +220,9 @@ def table_judge(v, replay, out, obs, ncases):
         # the binding bites: every corrupted copy is flagged by the clause that speaks about the corrupted field
         if len(variants) < 10 and not v.violations and not v.drift:
             raise vlib.MachineryError("binding self-test (table): base outcomes missing although the run is clean")
+        if got.get("intact") and v.violations:
+            variants = []
+            v.cov["table_binding_selftest"] = {"skipped": "the base outcome violates %s on this tree" % sorted(got["intact"])}
         for (name, _, clause) in variants:
             if clause is None:
                 if got.get(name):
@@ -228,7 +231,8 @@ def table_judge(v, replay, out, obs, ncases):
                 raise vlib.MachineryError("binding self-test (table): corruption %r not flagged as %s (got %s)" % (name, clause, sorted(got.get(name, ()))))
         if any(n == "code" for (n, _, _) in variants) and got.get("code") != {"drift"}:
             raise vlib.MachineryError("binding self-test (table): a wrong error code must be drift only, got %s" % got.get("code"))
-        v.cov["table_binding_selftest"] = {n: sorted(c) for n, c in got.items()}
+        if variants:
+            v.cov["table_binding_selftest"] = {n: sorted(c) for n, c in got.items()}
 
 
 # --------------------------------------------------------------------------
@@ -455,7 +459,7 @@ def url_prepare(v, tier, seed, replay, out, jobs):
         by_kind = {}
         for _, (kind, cfgh, steps) in sorted(scripts.items()):
             by_kind.setdefault("corner" if kind.startswith("corner") else kind, []).append((kind, cfgh, steps))
-        limits = {"cover:one+handler": 320 if quick else 6000, "sim": 260 if quick else 6000}
+        limits = {"cover:one+handler": 320 if quick else 2500, "sim": 260 if quick else 2500, "cover:one-nohandler": None if quick else 300}
         n = 0
         for kind in sorted(by_kind):
             lst = by_kind[kind]
@@ -497,11 +501,8 @@ def url_judge(v, replay, out, obs, scen, rc, gout):
         elif r["ev"] == "recv" and r["try"] == 2:
             outcomes["retries"] = outcomes.get("retries", 0) + 1
     v.cov["url_real_outcomes"] = outcomes
-    if replay is None and rc == 0:
-        need = ["ok", "err", "urlreq", "badmode", "elicitfail", "ctxerr", "hang", "retries"]
-        miss = [k for k in need if not outcomes.get(k)]
-        if miss:
-            raise vlib.MachineryError("vacuity: outcome classes never reached on the real client: %s" % miss)
+    need = ["ok", "err", "urlreq", "badmode", "elicitfail", "ctxerr", "hang", "retries"]
+    miss = [k for k in need if not outcomes.get(k)] if (replay is None and rc == 0) else []
     for tid, start, trows in traces[:: max(1, len(traces) // 3)][:3]:
         v.sample({"trace": tid, "events": [[r["ev"], r["c"], r["kind"] or r["id"] or r["h"] or r["out"]] for r in trows
                                            if r["ev"] in ("resp", "cnotif", "hend", "recv", "ret", "hang", "cancel")][:14]})
@@ -531,6 +532,8 @@ def url_judge(v, replay, out, obs, scen, rc, gout):
             drift.append("url: scenario %s: line %d not explained by ElicitURL.tla: %s" % (
                 e["trace"], hwm, json.dumps({k: e[k] for k in ("ev", "c", "try", "kind", "ids", "id", "h", "out", "keys")})))
             cur = [r for r in cur if r["trace"] != e["trace"]]
+            results["strict"] = (False, hwm, len(cur), sres)     # attempts exhausted: the code drifts in many traces
+            results["gave_up"] = True
         results["drift"] = drift
     errs = []
 
@@ -544,10 +547,10 @@ def url_judge(v, replay, out, obs, scen, rc, gout):
     ths = [threading.Thread(target=guard(mon_job)), threading.Thread(target=guard(strict_job))]
     for t in ths:
         t.start()
-    return ths, errs, results, rows, traces, variants, by_id
+    return ths, errs, results, rows, traces, variants, by_id, miss
 
 
-def url_finish(v, replay, ths, errs, results, rows, traces, variants, by_id):
+def url_finish(v, replay, ths, errs, results, rows, traces, variants, by_id, miss):
     for t in ths:
         t.join()
     if errs:
@@ -575,9 +578,17 @@ def url_finish(v, replay, ths, errs, results, rows, traces, variants, by_id):
     for sres in results.get("strict_runs", []):
         v.add_tlc("ElicitURLTrace", sres)
     v.drift.extend(results.get("drift", []))
+    if miss:
+        # on a tree that keeps the properties and follows the model every outcome class must have been reached
+        if not v.violations and not v.drift:
+            raise vlib.MachineryError("vacuity: outcome classes never reached on the real client: %s" % miss)
+        v.cov["outcome_classes_not_reached"] = miss
     ok, hwm, nreal_lines, sres = results["strict"]
     v.cov["strict_traces"] = len(traces)
-    if replay is None and variants:
+    if replay is None and variants and got.get("intact") and v.violations:
+        # the base trace itself breaks a property on this tree: nothing to corrupt
+        v.cov["url_binding_selftest"] = {"skipped": "the base trace violates %s on this tree" % sorted(got["intact"])}
+    elif replay is None and variants:
         for (name, _, clause, so) in variants:
             if so:
                 continue
@@ -590,6 +601,8 @@ def url_finish(v, replay, ths, errs, results, rows, traces, variants, by_id):
         # the strict specification explains every real line and the intact copy, and stops at the corrupted snapshot
         if hwm is not None and hwm < 1:
             v.drift.append("url: a real trace drives ElicitURL.tla into a state that violates %s" % sres.violation)
+        elif results.get("gave_up"):
+            pass
         elif ok or hwm is None or hwm <= nreal_lines + intact_len:
             raise vlib.MachineryError("binding self-test (url): the strict specification did not stop at the corrupted waiter snapshot (ok=%s hwm=%s, real lines %d, intact copy %d lines)" % (ok, hwm, nreal_lines, intact_len))
         v.cov["url_binding_selftest"] = {"corruptions_flagged": {n: sorted(c) for n, c in got.items()},
@@ -645,7 +658,7 @@ def run(tier, seed, replay):
             jobs.add("cover:two-shared", "ElicitURLMC", "ElicitURL_cover.cfg", workers=1, timeout=300, heap_gb=3,
                      extra_args=["-dump", "dot,actionlabels", "cover.dot"])
         jobs.add("sim (ElicitURL_sim.cfg)", "ElicitURLGen", "ElicitURL_sim.cfg", workers=1, timeout=300, heap_gb=3,
-                 simulate="num=%d" % (500 if quick else 12000), depth=160, seed=seed)
+                 simulate="num=%d" % (500 if quick else 4000), depth=160, seed=seed)
     done = jobs.join()
     env = {"VERIF_SEED": seed}
     ncases, scen = 0, []
